@@ -71,6 +71,9 @@ def values_shape(values, dtype):
             if isinstance(v, list):
                 for x in v:
                     shapes.add(text_shape(x) if isinstance(x, str) else "nonstr")
+        if any(isinstance(v, list) and any(set(x) & set(",;()[]") for x in v if isinstance(x, str))
+               for v in values):
+            return "tuple:%s:element-with-syntax-char" % n
         for s in SHAPE_PRIORITY:
             if s in shapes:
                 return "%s:%s:%s" % (dc, n, s)
@@ -135,6 +138,9 @@ def classify_item(item, fmt):
     """Mechanism key for one diff item of a save/load round trip in format fmt."""
     f = item["field"]
     exp, obs = item["exp"], item["obs"]
+    if f in ("values", "replaced-by-default") and item.get("kind", "prop") == "prop" and \
+            "element-with-syntax-char" in values_shape(exp or [], item.get("ctx", {}).get("dtype")):
+        return "%s/tuple-element-with-syntax-char" % fmt
     if f == "values":
         return "%s/values:%s/%s" % (fmt, values_shape(exp, item.get("ctx", {}).get("dtype")),
                                     values_effect(exp, obs))
